@@ -482,7 +482,7 @@ func genFrames(r *hx.Rand, g *hx.Gen, sel []int, added []int) []string {
 
 func gen(g *hx.Gen) {
 	r := g.R
-	nSeq := g.Count(1500, 50000)
+	nSeq := g.Count(1200, 20000)
 	for i := 0; i < nSeq; i++ {
 		sel := pickSel(r)
 		ops := genSeqOps(r, g, sel, r.Range(1, 30), false)
@@ -498,7 +498,7 @@ func gen(g *hx.Gen) {
 			g.Emit("seq mode=%s K=%s ops=%s", []string{"direct", "wire"}[i%2], kTable(sel), strings.Join(ops, ";"))
 		}
 	}
-	nFr := g.Count(1500, 50000)
+	nFr := g.Count(1000, 20000)
 	for i := 0; i < nFr; i++ {
 		sel := pickSel(r)
 		var init []string
@@ -513,7 +513,7 @@ func gen(g *hx.Gen) {
 		}
 		g.Emit("frames K=%s init=%s f=%s", kTable(sel), joinSemi(init), strings.Join(genFrames(r, g, sel, added), ";"))
 	}
-	nEnc := g.Count(600, 20000)
+	nEnc := g.Count(400, 5000)
 	for i := 0; i < nEnc; i++ {
 		sel := pickSel(r)
 		ops := genSeqOps(r, g, sel, 1, false)
